@@ -13,6 +13,10 @@ CFG = {
         "Leptos.Async.C10_notify_marks_every_subscriber",
         "Leptos.Async.C10_dependents_notified_each_transition",
         "Leptos.Async.C10_version_check_redundant",
+        "Leptos.Async.RInv.run",
+        "Leptos.Async.C10_reads_subscribed",
+        "Leptos.Async.C10_dependency_set_is_reads",
+        "Leptos.Async.C10_in_flight_reads_current",
         "Leptos.Async.SInv.run",
         "Leptos.Async.C10_suspense_pending_while_covered",
         "Leptos.Async.C10_suspense_released_when_idle",
@@ -29,13 +33,16 @@ CFG = {
     "harness_bin": "c10",
     "n": {"quick": 12000, "thorough": 400000},
     "trivial_tags": ["plain", "no-effect", "effect-d", "settled", "fresh-completion", "multi-source", "init-value", "resource", "once-resource",
-                     "local-resource", "memo-source"],
+                     "local-resource", "memo-source", "dynamic-reads"],
     "rule": "the real handles on the harness-controlled executor, fetcher futures = oneshot receivers resolved by `complete`: reactive_graph "
             "ArcAsyncDerived/AsyncDerived (sync and unsync constructors, with/without initial value; 1-2 source signals read directly or through one "
             "memo of all of them) and leptos_server Resource/ArcResource/Resource::new_blocking (source fn = all sources, `refetch` = Resource::refetch), "
             "OnceResource/ArcOnceResource, LocalResource/ArcLocalResource (tick tasks of Executor::tick() appear in the ready list); optional subscriber "
             "Effect reading the handle (alone, or before/after a memo of the sources); awaiters (`.await`, `ready()`, `by_ref()` where the API has them) "
-            "attached at generated points; a stand-in <Suspense/> boundary (child owner providing a SuspenseContext) reading the value synchronously "
+            "attached at generated points; fetchers with CONDITIONAL / INDEXED reads (`R0/-/C1`: flag in the closure body, extra input only when the flag is "
+            "non-zero and only after the await; `-/R0.X/-`: indexed input in the async block before its first await; 12 such programs over 2-3 "
+            "sources) so that an input is first read in a later run: every sequence of length 4 over {flag writes, writes to the extra inputs, "
+            "complete, idle} before and after a first load, each followed by a write to the newly read input after settling; a stand-in <Suspense/> boundary (child owner providing a SuspenseContext) reading the value synchronously "
             "(`bread`) at every phase: no value + loading, value + idle, value + reloading. Cases: EVERY op sequence of length <= 3 over {set, refetch, "
             "mset, complete, attach, poll 0/1/2} and of length 4 over {set, complete, mset, poll 0/1} for every effect kind and both source modes; every "
             "interleaving of two source writes with completions and polls after 5 preambles; for the boundary every sequence of length <= 4 over {set, "
@@ -57,7 +64,7 @@ CFG = {
     "modelled": ["spawn_derived! task loop (arc_async_derived.rs)", "ArcAsyncDerived::notify_subs / set_inner_value", "ArcAsyncDerivedInner as ReactiveNode "
                  "(mark_dirty, update_if_necessary; Notifying)", "AsyncDerivedFuture / AsyncDerivedReadyFuture / AsyncDerivedRefFuture poll", "Write/Set impl "
                  "(manual write = store + notify)", "channel.rs", "Effect::new task + EffectInner::update_if_necessary", "MemoInner mark_dirty/update_if_necessary "
-                 "(one memo over signals)", "ArcAsyncDerived::try_read_untracked under a SuspenseContext + the loop's suspense_ids (task ids held per fetch)",
+                 "(one memo over signals)", "ScopedFuture (observer re-installed on every poll: reads before and after an await are tracked)", "ArcAsyncDerived::try_read_untracked under a SuspenseContext + the loop's suspense_ids (task ids held per fetch)",
                  "leptos_server ArcResource::new_with_options (source memo (refetch, source()), untracked fetcher, refetch)", "ArcOnceResource (one future; "
                  "Suspense handle only while there is no value)", "ArcLocalResource/LocalResource (Executor::tick() before every fetch; refetch = tracked signal)"],
     "assumptions": [
